@@ -88,7 +88,7 @@ class Mon:
 
         monitor.capture_init(P.Standardize)
         monitor.attach(P.Standardize, "accumulate", pre=self.pre_acc, post=self.post_acc)
-        monitor.attach(P.Standardize, "apply", pre=self.pre_apply, post=self.post_apply)
+        monitor.attach(P.Standardize, "apply", pre=self.pre_apply, post=self.post_apply, ambient=self.v, ambient_ok=monitor.not_in_place)
 
     def v(self, what, **kw):
         self.rec.violation(dict(what=what, case=self.case, **kw))
